@@ -219,7 +219,31 @@ def parse : Dispatch :=
   { readLen := .const .rawVersionSize
     versions := [(.v2, .parseV2), (.v3, .parseV3)] }
 
+/--
+```python
+def __init__(self, threads_pids=None, pids_names=None):                  # parameters 0, 1
+    self.threads_pids = {} if threads_pids is None else threads_pids
+    self.pids_names = {} if pids_names is None else pids_names
+    self.versions = {...}                                                # `parse.versions`
+    self.trace_codes = ''
+    self.images = {}
+    self.dyld_modules = {}
+    self.processes = {}
+    self.kernel_extensions = {'Binaries': []}
+    self.v3_header = None
+```
+(sorted: threads_pids, pids_names, then the metadata attributes in the order of `Attr`, then v3_header)
+-/
+def init : CtorDef :=
+  { params := 2
+    defaults := [.none, .none]
+    sets := [(.threadsPids, .paramOrEmpty 0), (.pidsNames, .paramOrEmpty 1),
+             (.md .traceCodes, .display .emptyStr), (.md .kernelExtensions, .display .binariesDict),
+             (.md .dyldModules, .display .emptyDict), (.md .images, .display .emptyDict),
+             (.md .processes, .display .emptyDict), (.v3Header, .none)] }
+
 def prog : Program :=
-  { seekUntil := seekUntil, setThreadMap := setThreadMap, parseV2 := parseV2, parseV3 := parseV3, parse := parse }
+  { seekUntil := seekUntil, setThreadMap := setThreadMap, parseV2 := parseV2, parseV3 := parseV3, parse := parse,
+    init := init }
 
 end KdVerif.PyIRRd.Expected
